@@ -5,6 +5,17 @@ from __future__ import annotations
 from collections.abc import Collection
 from typing import TYPE_CHECKING, Any
 
+from .ast import (
+    EnumTypeDefinitionNode,
+    EnumTypeExtensionNode,
+    InputObjectTypeDefinitionNode,
+    InputObjectTypeExtensionNode,
+    InterfaceTypeDefinitionNode,
+    InterfaceTypeExtensionNode,
+    ObjectTypeDefinitionNode,
+    ObjectTypeExtensionNode,
+    SchemaExtensionNode,
+)
 from .block_string import print_block_string
 from .print_string import print_string
 from .visitor import Visitor, visit
@@ -77,7 +88,9 @@ class PrintAstVisitor(Visitor):
         return join(node.definitions, "\n\n")
 
     @staticmethod
-    def leave_operation_definition(node: PrintedNode, *_args: Any) -> str:
+    def leave_operation_definition(
+        node: PrintedNode, key: Any = None, parent: Any = None, *_args: Any
+    ) -> str:
         var_defs = (
             wrap("(\n", join(node.variable_definitions, "\n"), "\n)")
             if has_multiline_items(node.variable_definitions)
@@ -92,8 +105,16 @@ class PrintAstVisitor(Visitor):
             " ",
         )
         # Anonymous queries with no directives or variable definitions can use the
-        # query short form.
-        return ("" if prefix == "query" else prefix + " ") + node.selection_set
+        # query short form, unless its braces would be read as the body of a
+        # preceding type system definition or extension that has none.
+        if prefix == "query" and not (
+            isinstance(key, int)
+            and key > 0
+            and isinstance(parent, (list, tuple))
+            and can_take_body(parent[key - 1])
+        ):
+            return node.selection_set
+        return prefix + " " + node.selection_set
 
     @staticmethod
     def leave_variable_definition(node: PrintedNode, *_args: Any) -> str:
@@ -482,6 +503,27 @@ def indent(string: str) -> str:
 def is_multiline(string: str) -> bool:
     """Check whether a string consists of multiple lines."""
     return "\n" in string
+
+
+def can_take_body(node: Any) -> bool:
+    """Check whether a block in braces after the given definition would extend it."""
+    if isinstance(
+        node,
+        (
+            ObjectTypeDefinitionNode,
+            InterfaceTypeDefinitionNode,
+            InputObjectTypeDefinitionNode,
+            ObjectTypeExtensionNode,
+            InterfaceTypeExtensionNode,
+            InputObjectTypeExtensionNode,
+        ),
+    ):
+        return not node.fields
+    if isinstance(node, (EnumTypeDefinitionNode, EnumTypeExtensionNode)):
+        return not node.values
+    if isinstance(node, SchemaExtensionNode):
+        return not node.operation_types
+    return False
 
 
 def has_multiline_items(strings: Strings | None) -> bool:
